@@ -76,7 +76,7 @@ func VerifyFunction(prog *ssa.Program, db *ContractDB, fn *ssa.Function, fc *Fun
 		fv.fail("function has no body")
 		return
 	}
-	st := &State{enc: enc, regs: map[ssa.Value]Value{}, cells: map[ssa.Value]Value{}, heap: map[string]Term{}, prefEp: map[string]int{}, inLoop: map[*ssa.BasicBlock]bool{}, unroll: map[*ssa.BasicBlock]int{}, decr: map[*ssa.BasicBlock]Term{}, rangePos: map[ssa.Value]Term{}, promoted: map[ssa.Value]Term{}, allocSeq: map[ssa.Value]int{}}
+	st := &State{enc: enc, regs: map[ssa.Value]Value{}, cells: map[ssa.Value]Value{}, heap: map[string]Term{}, prefEp: map[string]int{}, inLoop: map[*ssa.BasicBlock]bool{}, unroll: map[*ssa.BasicBlock]int{}, decr: map[*ssa.BasicBlock]Term{}, rangePos: map[ssa.Value]Term{}, promoted: map[ssa.Value]Term{}, allocSeq: map[ssa.Value]int{}, lastRead: map[string]Term{}}
 	st.hwm = enc.declare("hwm0", SInt)
 	st.assume(Gt(st.hwm, I(0)))
 	enc.epochHwm[0] = st.hwm
@@ -211,6 +211,8 @@ func (fv *FuncVerifier) frameAllows() []frameAllow {
 				mv := env.eval(x.Args[0])
 				o := mv.L[0]
 				allows = append(allows, frameAllow{"M_content", &o})
+			case "anything":
+				allows = append(allows, frameAllow{"*", nil})
 			}
 		case *SIdent:
 			if fields, ok := fv.db.Regions[x.Name]; ok {
@@ -237,6 +239,12 @@ func (fv *FuncVerifier) frameGoal(name, sortS string, cur Term) (Term, bool) {
 	whole := false
 	var objs []Term
 	for _, a := range fv.frameAllows() {
+		if a.prefix == "*" {
+			if !strings.HasPrefix(name, "LK_") {
+				whole = true
+			}
+			continue
+		}
 		if strings.HasPrefix(name, a.prefix) {
 			if a.obj == nil {
 				whole = true
@@ -263,7 +271,7 @@ func (fv *FuncVerifier) frameGoal(name, sortS string, cur Term) (Term, bool) {
 // the loop frame (checked at every back edge) says it agrees with the entry version outside
 // the function's modifies clause.
 func (fv *FuncVerifier) loopFrameAxiom(name string, t Term, sortS string) {
-	if fv.fc == nil || !fv.fc.HasModifies || fv.pre == nil {
+	if fv.fc == nil || !fv.fc.HasModifies || fv.pre == nil || strings.HasPrefix(name, "LKE_") {
 		return
 	}
 	g, ok := fv.frameGoal(name, sortS, t)
@@ -279,11 +287,23 @@ func (fv *FuncVerifier) checkFrame(st *State, retIdx int, pos token.Pos) {
 }
 
 func (fv *FuncVerifier) checkFrameAt(st *State, label string, pos token.Pos) {
+	fv.checkFrameFiltered(st, label, pos, nil)
+}
+
+// checkFrameFiltered: only is non-nil for loop back edges: the heap arrays the loop may modify
+// (others are unchanged since the loop head by construction).
+func (fv *FuncVerifier) checkFrameFiltered(st *State, label string, pos token.Pos, only func(name string) bool) {
 	fc := fv.fc
 	if !fc.HasModifies {
 		return
 	}
-	if st.epoch != fv.pre.epoch {
+	anything := false
+	for _, a := range fv.frameAllows() {
+		if a.prefix == "*" {
+			anything = true
+		}
+	}
+	if st.epoch != fv.pre.epoch && !anything {
 		fv.addOb(st, "frame", fmt.Sprintf("frame:*@%s", label), FalseT, "whole heap havocked by an unspecified call; frame cannot be established", pos)
 		return
 	}
@@ -312,7 +332,18 @@ func (fv *FuncVerifier) checkFrameAt(st *State, label string, pos token.Pos) {
 		if strings.HasPrefix(name, "LK_") && !fv.locksInFrame() {
 			continue
 		}
-		sortS := fv.enc.heapSort(name)
+		if strings.HasPrefix(name, "LKE_") {
+			continue // ghost critical-section counters
+		}
+		if only != nil && !only(name) {
+			continue
+		}
+		var sortS string
+		if t, ok := st.heap[name]; ok {
+			sortS = t.Sort
+		} else {
+			sortS = fv.enc.heapSort(name)
+		}
 		cur := st.heapArr(name, sortS)
 		goal, ok := fv.frameGoal(name, sortS, cur)
 		if !ok || goal.S == "true" {
